@@ -8,7 +8,7 @@ From BS Require Import Model.Base Model.Regex Model.Num Model.ExprParser Model.S
   Proofs.ExprFuel Proofs.C10wsFull Proofs.RegexShiftG Proofs.C10wsIndent2 Proofs.C10wsReturn
   Proofs.C10tokLex Proofs.C10tokSpaced Proofs.RegexTrail Proofs.C10tokTrail Proofs.RegexTrail2
   Proofs.RegexTrail3 Proofs.C10stmtTrail Proofs.C10parseNoeq Proofs.C10classifyTrail Proofs.C10stmtGaps Proofs.C10stmtGaps2 Proofs.C10stmtGaps3
-  Proofs.C10stmtGaps4 Proofs.C10stmtGaps5 Proofs.C10stmtGaps6 Proofs.C02str Proofs.C10stmtGaps7 Proofs.C10stmtGaps8.
+  Proofs.C10stmtGaps4 Proofs.C10stmtGaps5 Proofs.C10stmtGaps6 Proofs.C02str Proofs.C10stmtGaps7 Proofs.C10stmtGaps8 Proofs.C10stmtGaps9 Proofs.C10labelKw Proofs.C10stmtGaps10.
 
 (* ---- LF versus CRLF: both texts have the same lines ---- *)
 Theorem C10_crlf : forall lines, lines <> [] -> Forall no_lf lines -> Forall (fun l => ends_cr l = false) lines ->
@@ -426,7 +426,8 @@ Print Assumptions C10_ws_include_system_pieces.
    belongs to T).
    The side condition of the label is exactly what classify's ORDER requires (label_keywords = [if; elif; else; while]):
    `else :` is KElse for every run; `if  :` / `elif  :` / `while  :` are an if / elif / while with a white expression text as
-   soon as the run has a second character that is not LF (with at most one character they are labels: C10_ex_ws_label_keywords).
+   soon as the run has a second character that is not LF (with at most one character they are labels: C10_ex_ws_label_keywords;
+   the exact criterion is C10_ws_label_keyword_names below: a non-LF character behind the FIRST character of the run).
    EVERY other identifier is a label — also  endif endwhile endfor endfunction break continue for function jump return
    include  (`endif :` is a label; the six keyword-only regexes never match a line with a colon: a match of `^\s*KW\s*$`
    reads the whole line and none of its atoms reads a colon).
@@ -502,6 +503,57 @@ Example C10_ex_ws_label_keywords :
   (exists e, Lower.classify 1 (U "if  :") = RErr e).
 Proof. exact label_kw_examples. Qed.
 
+(* ---- round 8 (Proofs/C10labelKw.v): the label lines named  if / elif / while  (kw_names), which C10_ws_label_pieces leaves
+   out:  w1 KW w2 : w3,  all runs white (any white characters, LF included).  The keyword regex `^\s*KW\s+(.+)\s*:\s*$` is tried
+   before the label regex and matches exactly when w2 = a x <LF>* with a non-empty and x not LF (`\s+` = a, `(.+)` = x):
+     LABEL  iff  every character of w2 behind its first is LF   (all_lf (tl w2) = true);
+     for an LF-free run (every line parse_script produces): iff |w2| <= 1;
+     otherwise the line is the keyword statement whose expression text is the single white character x = the LAST non-LF
+     character of w2, which never parses: if / while -> RErr (Syntax error, column |w1| + |KW| + |a| + 1), elif ->
+     ROk (KElif (RErr ...)) (kw_stmt; the elif error is delayed as in parser.py).
+   (The round-7 note "label iff the run has at most one non-LF character" was imprecise: `if<LF> :` has one and is an if
+   statement; the position matters, not the count.) ---- *)
+Theorem C10_ws_label_keyword_names : forall n kw w1 w2 w3, In kw kw_names -> white w1 -> white w2 -> white w3 ->
+  (all_lf (tl w2) = true -> Lower.classify n (w1 ++ kw ++ w2 ++ U ":" ++ w3) = ROk (KLabel kw)) /\
+  (all_lf (tl w2) = false ->
+     exists a x lfs, w2 = a ++ x :: lfs /\ a <> [] /\ x <> 10%N /\ all_lf lfs = true /\
+       Lower.classify n (w1 ++ kw ++ w2 ++ U ":" ++ w3)
+       = kw_stmt kw (err (U "Syntax error") (w1 ++ kw ++ w2 ++ U ":" ++ w3) (length w1 + length kw + length a + 1) n)).
+Proof. exact classify_label_kw. Qed.
+Print Assumptions C10_ws_label_keyword_names.
+
+Theorem C10_ws_label_keyword_names_iff : forall n kw w1 w2 w3, In kw kw_names -> white w1 -> white w2 -> white w3 ->
+  (Lower.classify n (w1 ++ kw ++ w2 ++ U ":" ++ w3) = ROk (KLabel kw) <-> all_lf (tl w2) = true).
+Proof. exact classify_label_kw_iff. Qed.
+Print Assumptions C10_ws_label_keyword_names_iff.
+
+Theorem C10_ws_label_keyword_names_nolf : forall n kw w1 w2 w3, In kw kw_names -> white w1 -> white w2 -> white w3 -> nolf w2 ->
+  (Lower.classify n (w1 ++ kw ++ w2 ++ U ":" ++ w3) = ROk (KLabel kw) <-> length w2 <= 1).
+Proof. exact classify_label_kw_nolf. Qed.
+Print Assumptions C10_ws_label_keyword_names_nolf.
+
+(* the statement side by its pieces *)
+Theorem C10_ws_keyword_white_expression_pieces : forall n w1 a x lfs w3, white w1 -> white a -> a <> [] -> is_sp x = true ->
+  x <> 10%N -> all_lf lfs = true -> white w3 -> forall kw, In kw kw_names ->
+  Lower.classify n (w1 ++ kw ++ (a ++ x :: lfs) ++ U ":" ++ w3)
+  = kw_stmt kw (err (U "Syntax error") (w1 ++ kw ++ (a ++ x :: lfs) ++ U ":" ++ w3) (length w1 + length kw + length a + 1) n).
+Proof. exact classify_kw_white. Qed.
+Print Assumptions C10_ws_keyword_white_expression_pieces.
+
+Example C10_ex_ws_label_keyword_names :
+  kw_names = [U "if"; U "elif"; U "while"] /\
+  (forall e, kw_stmt (U "if") e = RErr e /\ kw_stmt (U "elif") e = ROk (KElif (RErr e)) /\ kw_stmt (U "while") e = RErr e) /\
+  Lower.classify 7 (U "if :") = ROk (KLabel (U "if")) /\ Lower.classify 7 (U " elif\000009: ") = ROk (KLabel (U "elif")) /\
+  Lower.classify 7 (U "while \00000a\00000a:") = ROk (KLabel (U "while")) /\
+  Lower.classify 7 (U " if  :") = RErr (err (U "Syntax error") (U " if  :") 5 7) /\
+  Lower.classify 7 (U "elif \000009\00000a: ") = ROk (KElif (RErr (err (U "Syntax error") (U "elif \000009\00000a: ") 6 7))) /\
+  Lower.classify 7 (U "while\00000a :") = RErr (err (U "Syntax error") (U "while\00000a :") 7 7) /\
+  all_lf (tl (U " \00000a\00000a")) = true /\ all_lf (tl (U "\00000a ")) = false.
+Proof.
+  split; [reflexivity|]. split; [intros e; repeat split; reflexivity|].
+  destruct label_kw_names_examples as (A & B & C & D & E & F & G & H). repeat split; assumption.
+Qed.
+
 (* ---- round 7 (Proofs/C10stmtGaps7.v): the quoted include  w1 include w2 'body' w4  ->  KInclude (un-escaped body) false,
    for all white runs (w2 non-empty) and every body whose quotes are all escaped (quotes_escaped: the greedy reading
    `\'` | [^'] of the body never meets a bare quote).  The group is a backtracking star over an alternation: when the body
@@ -551,6 +603,117 @@ Example C10_ex_ws_fn_begin :
   Lower.classify 2 (U "function g( ) :") = ROk (KFnBegin (U "g") (ROk None) false false) /\
   Lower.classify 2 (U "function g(  ...):") = ROk (KFnBegin (U "g") (ROk None) false true).
 Proof. exact fn_begin_examples. Qed.
+
+(* ---- round 8 (Proofs/C10stmtGaps9.v): the argument list of a function begin line IS the list of the names, for EVERY
+   argument list: the model's re_split of the captured text  a1 u1 , v1 a2 u2 , v2 a3 ...  at `\s*,\s*` gives
+   [a1; a2; a3; ...] (fn_names; name3 (u, v, a) = a), whatever the white runs u_i v_i are (also empty, also LF / form feed).
+   The captured text never has a leading or trailing run: group 3 of the function-begin regex starts at the first
+   character of a1 and ends behind the last name — a run in front of `...` belongs to the dots group, a run in front of `)`
+   to the `\s*` of the regex (FB_ARGS_read in C10stmtGaps8.v) — so no piece is empty and nothing is stripped.  Without
+   an argument group the model gives ROk None (Python: m.group('args') is None).
+   C10_ws_fn_begin_names = C10_ws_fn_begin_pieces with the explicit list. ---- *)
+Theorem C10_ws_fn_args_are_the_names : forall args, aok args -> fn_args args = ROk (fn_names args).
+Proof. exact fn_args_names. Qed.
+Print Assumptions C10_ws_fn_args_are_the_names.
+
+Theorem C10_ws_fn_args_are_the_names_explicit :
+  (forall a1 more, ident a1 = true -> mok more ->
+     fn_args (Some (a1, more)) = ROk (Some (a1 :: map (fun x : arg3 => let '(u, v, a) := x in a) more))) /\
+  fn_args None = ROk None.
+Proof. split; [intros a1 more IA MO; exact (fn_args_names (Some (a1, more)) (conj IA MO)) | reflexivity]. Qed.
+Print Assumptions C10_ws_fn_args_are_the_names_explicit.
+
+Theorem C10_ws_fn_begin_names : forall n asy w1 w2 name w3 w4 args dots w6 w7 w8,
+  awhite asy -> white w1 -> white w2 -> w2 <> [] -> ident name = true -> white w3 -> white w4 -> aok args -> dwhite dots ->
+  white w6 -> white w7 -> white w8 -> hd_ok is_sp (atext args ++ dtext dots ++ CL w6 w7 w8) ->
+  Lower.classify n (astext asy ++ w1 ++ U "function" ++ w2 ++ name ++ w3 ++ U "(" ++ w4 ++ atext args ++ dtext dots ++ CL w6 w7 w8)
+  = ROk (KFnBegin name (ROk (fn_names args)) (is_some asy) (is_some dots)).
+Proof. exact classify_fn_begin_names. Qed.
+Print Assumptions C10_ws_fn_begin_names.
+
+(* non-vacuity: the premise holds for a three-argument list with blank / tab / empty runs; the loose line classifies with
+   the explicit names THROUGH the theorem; tight layouts computed; a blank inside a name is outside the shape *)
+Example C10_ex_ws_fn_names :
+  aok (Some (U "a", [(U " ", [], U "b1"); (U " \000009 ", U " ", U "c")])) /\
+  fn_names (Some (U "a", [(U " ", [], U "b1"); (U " \000009 ", U " ", U "c")])) = Some [U "a"; U "b1"; U "c"] /\
+  Lower.classify 2 (U "  async \000009function  f1 ( a ,b1 \000009 , c  ... ) :  ")
+    = ROk (KFnBegin (U "f1") (ROk (Some [U "a"; U "b1"; U "c"])) true true) /\
+  Lower.classify 2 (U "function f1(a,b1,c):") = ROk (KFnBegin (U "f1") (ROk (Some [U "a"; U "b1"; U "c"])) false false) /\
+  Lower.classify 2 (U "function f1(a):") = ROk (KFnBegin (U "f1") (ROk (Some [U "a"])) false false) /\
+  Lower.classify 2 (U "function f1(a b):") <> Lower.classify 2 (U "function f1(ab):").
+Proof. exact fn_names_examples. Qed.
+
+(* ---- round 8 (Proofs/C10stmtGaps10.v): ONE relation for every statement kind with inner gaps.  stmt_spaced4 = stmt_spaced3
+   (assignment, if, elif, while, return <expr>, jump, jumpif, label, for, for with index) plus
+     function begin : two layouts fb_layout (each with its own runs and its own separators `u , v` in the argument list),
+                      the same name, the same argument NAMES (fn_names), async / `...` in both or in neither;
+     include 'body' : the same body (every quote escaped);   include <url> : the same url (no `>`);
+     a label named if / elif / while : both runs in front of the colon with only LF behind their first character.
+   Related lines classify successfully and alike (same kind, names, flags, expression trees).  PARTIAL as before: the
+   expression texts are related by `spaced` and the first one parses; rejected lines are not related. ---- *)
+Theorem C10_ws_statement_gaps4_partial : forall n k l1 l2, stmt_spaced4 k l1 l2 ->
+  Lower.classify n l1 = ROk k /\ Lower.classify n l2 = ROk k.
+Proof. exact stmt_spaced4_classify. Qed.
+Print Assumptions C10_ws_statement_gaps4_partial.
+
+Theorem C10_ws_statement_gaps4_same : forall n k l1 l2, stmt_spaced4 k l1 l2 -> Lower.classify n l1 = Lower.classify n l2.
+Proof. exact stmt_spaced4_same. Qed.
+Print Assumptions C10_ws_statement_gaps4_same.
+
+Theorem C10_ws_statement_gaps4_symmetric : forall k l1 l2, stmt_spaced4 k l1 l2 -> stmt_spaced4 k l2 l1.
+Proof. exact stmt_spaced4_sym. Qed.
+Print Assumptions C10_ws_statement_gaps4_symmetric.
+
+(* the function-begin constructor spelled out (what ss4_fn_begin relates) *)
+Theorem C10_ws_fn_begin_layouts : forall n name L1 L2, ident name = true -> fb_ok L1 -> fb_ok L2 ->
+  fn_names (fb_args L1) = fn_names (fb_args L2) -> is_some (fb_asy L1) = is_some (fb_asy L2) ->
+  is_some (fb_dots L1) = is_some (fb_dots L2) ->
+  Lower.classify n (fb_line name L1) = ROk (KFnBegin name (ROk (fn_names (fb_args L1))) (is_some (fb_asy L1)) (is_some (fb_dots L1))) /\
+  Lower.classify n (fb_line name L2) = Lower.classify n (fb_line name L1).
+Proof.
+  intros n name L1 L2 ID O1 O2 EN EA ED.
+  destruct (stmt_spaced4_classify n _ _ _ (ss4_fn_begin name L1 L2 ID O1 O2 EN EA ED)) as [A B]. split; [exact A | rewrite A, B; reflexivity].
+Qed.
+Print Assumptions C10_ws_fn_begin_layouts.
+
+(* non-vacuity: a tight and a loose layout of each new shape are related ... *)
+Example C10_ex_ws_statement_gaps4 :
+  fb_ok fb_tight /\ fb_ok fb_loose /\
+  fb_line (U "f1") fb_tight = U "async function f1(a,b1,c...):" /\
+  fb_line (U "f1") fb_loose = U "  async \000009function  f1 ( a ,b1 \000009 , c  ... ) :  " /\
+  stmt_spaced4 (KFnBegin (U "f1") (ROk (Some [U "a"; U "b1"; U "c"])) true true)
+    (U "async function f1(a,b1,c...):") (U "  async \000009function  f1 ( a ,b1 \000009 , c  ... ) :  ") /\
+  stmt_spaced4 (KInclude (U "it's") false) (U "include 'it\00005c's'") (U "  include \000009 'it\00005c's'  ") /\
+  stmt_spaced4 (KInclude (U "a b.bare") true) (U "include <a b.bare>") (U " include \000009 <a b.bare>  ") /\
+  stmt_spaced4 (KLabel (U "while")) (U "while:") (U " while\000009: ") /\
+  stmt_spaced4 (KLabel (U "top")) (U "top:") (U " top\000009 :  ").
+Proof.
+  destruct fb_examples_ok as (A & B & C & D). destruct stmt_spaced4_examples as (E & F & G & H & I).
+  exact (conj A (conj B (conj C (conj D (conj E (conj F (conj G (conj H I)))))))).
+Qed.
+
+(* ... and classify COMPUTES the same kind on both; white space inside a piece is outside the relation *)
+Example C10_ex_ws_statement_gaps4_computed :
+  Lower.classify 2 (U "async function f1(a,b1,c...):") = ROk (KFnBegin (U "f1") (ROk (Some [U "a"; U "b1"; U "c"])) true true) /\
+  Lower.classify 2 (U "  async \000009function  f1 ( a ,b1 \000009 , c  ... ) :  ") = Lower.classify 2 (U "async function f1(a,b1,c...):") /\
+  Lower.classify 2 (U "  include \000009 'it\00005c's'  ") = Lower.classify 2 (U "include 'it\00005c's'") /\
+  Lower.classify 2 (U "include 'it\00005c's'") = ROk (KInclude (U "it's") false) /\
+  Lower.classify 2 (U " include \000009 <a b.bare>  ") = Lower.classify 2 (U "include <a b.bare>") /\
+  Lower.classify 2 (U " while\000009: ") = Lower.classify 2 (U "while:") /\
+  Lower.classify 2 (U "while:") = ROk (KLabel (U "while")) /\
+  (* the run between `async` and `function` is a `\s*`: it may be empty *)
+  Lower.classify 2 (U "asyncfunction f1():") = Lower.classify 2 (U "async function f1():") /\
+  Lower.classify 2 (U "function f1(a,b1):") <> Lower.classify 2 (U "function f1(a,b 1):") /\
+  Lower.classify 2 (U "function f1(a,b1):") <> Lower.classify 2 (U "function f1(a,b1. ..):") /\
+  Lower.classify 2 (U "function f1():") <> Lower.classify 2 (U "functionf1():") /\
+  Lower.classify 2 (U "include 'a'") <> Lower.classify 2 (U "include' a'") /\
+  Lower.classify 2 (U "while:") <> Lower.classify 2 (U "while  :").
+Proof.
+  split; [vm_compute; reflexivity|]. split; [vm_compute; reflexivity|]. split; [vm_compute; reflexivity|].
+  split; [vm_compute; reflexivity|]. split; [vm_compute; reflexivity|]. split; [vm_compute; reflexivity|].
+  split; [vm_compute; reflexivity|]. split; [vm_compute; reflexivity|].
+  repeat split; vm_compute; discriminate.
+Qed.
 
 Theorem C10_expression_never_starts_eq : forall t e, parse_expression (U "=" ++ t) <> EOk e.
 Proof. exact parse_hd_noeq. Qed.
@@ -610,11 +773,12 @@ Qed.
      C10_ws_for_index_pieces, C10_ws_statement_gaps3_partial (relation stmt_spaced3); include 'url' (every quote of the url
      escaped): C10_ws_include_quoted_pieces; function begin: C10_ws_fn_begin_pieces; from before: the keyword-only statements and the bare `return` with any indentation and
      trailing whitespace (C10_ws_keyword_lines, C10_ws_return_bare) and `else :` (C10_ws_else_gap).
+   * round 8: the split of a function's argument text IS the list of the names, for every argument list
+     (C10_ws_fn_args_are_the_names, C10_ws_fn_begin_names); the labels named if / elif / while (C10_ws_label_keyword_names,
+     _iff, _nolf: label iff only LF behind the first character of the run, else the keyword statement with a one-character
+     white expression text, i.e. a syntax error); ONE relation stmt_spaced4 for all statement kinds with inner gaps, function
+     begin / include '...' / include <...> / keyword-named labels included (C10_ws_statement_gaps4_partial, _same, _symmetric).
    NOT proved (oracle only):
-   * function begin: the pieces theorem C10_ws_fn_begin_pieces (round 7) gives the argument list as the model's re_split of
-     the captured argument text at `\s*,\s*`; that this split is the list of the argument names is computed on examples,
-     not proved for every list; function begin, include '...' and the label are stated by their pieces only (they are
-     not constructors of stmt_spaced3: no expression in them — the label is);
    * C10_ws_statement_gaps_partial has the premise "the expression text parses" (it yields that BOTH layouts classify as
      the same kind) rather than "the first layout classifies successfully"; rejected lines are not related (their error
      record quotes the line, so it differs by construction; that the message and the column relative to the first token
